@@ -150,6 +150,7 @@ func genCfgCase(t *rapid.T) *cfgCase {
 	}
 	// registration order matters for nothing: services are registered in a drawn order
 	c.Services = rapid.Permutation(c.Services).Draw(t, "service_order")
+	restOnlyRoute := rapid.IntRange(0, 5).Draw(t, "rest_only_route") == 0
 	// rules: a subset of valid blocks
 	nr := rapid.IntRange(0, 5).Draw(t, "n_cfg_rules")
 	seen := map[string]bool{}
@@ -160,6 +161,24 @@ func genCfgCase(t *rapid.T) *cfgCase {
 		}
 		seen[r.Method+r.Template] = true
 		c.Rules = append(c.Rules, r)
+	}
+	if restOnlyRoute {
+		// a REST-only service whose bindings all come from WithRules (its schema carries no annotations):
+		// servable as long as there is at least one binding for it
+		hasRouteRule := false
+		for _, r := range c.Rules {
+			if strings.HasPrefix(r.Selector, routeService+".") {
+				hasRouteRule = true
+			}
+		}
+		if !hasRouteRule {
+			c.Rules = append(c.Rules, validRuleBlocks[0])
+		}
+		for i := range c.Services {
+			if c.Services[i].Kind == "route" {
+				c.Services[i].SetProtocols, c.Services[i].Protocols = true, []string{ProtoREST}
+			}
+		}
 	}
 	// at most one defect
 	if rapid.IntRange(0, 2).Draw(t, "inject_defect") != 0 {
@@ -177,12 +196,20 @@ func injectDefect(t *rapid.T, c *cfgCase) {
 		return pick()
 	}
 	badRule := func(r RuleSpec) { c.Rules = append(c.Rules, r) }
-	kinds := []string{"unknown_codec", "unknown_compression", "no_protocol", "invalid_protocol", "no_codec", "duplicate_service", "bad_template", "same_binding_twice",
+	kinds := []string{"var_nested_self", "response_body_two_elements", "var_wkt_lookalike", "unknown_codec", "unknown_compression", "no_protocol", "invalid_protocol", "no_codec", "duplicate_service", "bad_template", "same_binding_twice",
 		"body_no_field", "response_body_no_field", "var_no_field", "var_repeated", "var_map", "var_message", "body_two_elements", "selector_no_method", "selector_empty",
 		"selector_misplaced_wildcard", "selector_partial_wildcard", "wildcard_conflict", "rest_only_no_bindings", "nested_additional", "unknown_service_name", "no_pattern", "prefix_selector"}
 	k := rapid.SampledFrom(kinds).Draw(t, "defect_kind")
 	c.Defect = k
 	switch k {
+	case "var_nested_self":
+		// a variable whose own pattern binds the same field again: the field path occurs twice
+		badRule(RuleSpec{Selector: routeService + ".A", Method: "GET", Template: rapid.SampledFrom([]string{"/cfg/self/{string_value=a/{string_value}}", "/cfg/self/{string_value=x/{string_value}/y}", "/cfg/self/{nested.string_value=a/{nested.string_value=*}}"}).Draw(t, "self_nested")})
+	case "response_body_two_elements":
+		badRule(RuleSpec{Selector: routeService + ".B", Method: "GET", Template: "/cfg/rb2/{string_value}", ResponseBody: rapid.SampledFrom([]string{"nested.string_value", "timestamp.seconds", "recursive.nested"}).Draw(t, "rb2")})
+	case "var_wkt_lookalike":
+		// message types that merely share the short name of a well-known type cannot be path variables
+		badRule(RuleSpec{Selector: routeService + ".Wkt", Method: "GET", Template: rapid.SampledFrom([]string{"/cfg/wkt/{duration}", "/cfg/wkt/{empty}", "/cfg/wkt/{name}/{duration}"}).Draw(t, "wkt_like")})
 	case "unknown_codec":
 		s := target()
 		s.SetCodecs, s.Codecs = true, []string{rapid.SampledFrom([]string{"nope", "xml", "PROTO", ""}).Draw(t, "bad_codec")}
@@ -383,6 +410,11 @@ func checkC17(c *cfgCase) *CheckResult {
 			if po.Backend != nil && po.Backend.MI != nil {
 				got = po.Backend.MI.Name
 			}
+			if po.Backend != nil && po.Backend.Protocol == ProtoREST {
+				// The service's only target is REST: the probe is handed on as the REST request it is, and
+				// nothing in such a request names the method. Reaching the handler is what can be observed.
+				continue
+			}
 			if got != want {
 				res.violate("binding_unreachable", "c17:unreachable", "accepted rule %s %s for %s is not served: %s %s answered %d and reached %q", b.Method, b.Template, r.Selector, b.Method, url, po.Rec.Status, got)
 			}
@@ -426,6 +458,9 @@ func checkC17(c *cfgCase) *CheckResult {
 		}
 		if sp.NoCompress {
 			wantComp = nil
+		}
+		if len(wantProtos) == 1 && wantProtos[0] == ProtoREST {
+			continue // a REST leg speaks JSON whatever the codec list says; the bindings are probed above
 		}
 		for _, gz := range []bool{false, true} {
 			probeGzip = gz
